@@ -18,13 +18,29 @@ type Env struct {
 	rigs    map[string]string
 }
 
-const repoDir = "/repo"
+// repoDir is the tree under test: /repo, unless VSIM_REPO names a scratch worktree (used when
+// a seeded change is tried without touching /repo while background runs are reading it).
+var repoDir = func() string {
+	if d := os.Getenv("VSIM_REPO"); d != "" {
+		return d
+	}
+	return "/repo"
+}()
 
 func verifDir() string {
 	if d := os.Getenv("VERIF_DIR"); d != "" {
 		return d
 	}
 	return "/verif"
+}
+
+// outDir is where evidence and replay files go: /verif, unless VSIM_OUT redirects them (trying a
+// seeded change must not overwrite the evidence of the unchanged tree).
+func outDir() string {
+	if d := os.Getenv("VSIM_OUT"); d != "" {
+		return d
+	}
+	return verifDir()
 }
 
 func goEnv() []string {
